@@ -1,5 +1,6 @@
 """C08 -- A failed or cancelled spawn leaves nothing behind."""
 import re
+from .facts import proj_field_name
 from .model import *
 from .facts import Site, op_place, Call
 from . import c05, c06, c10, c01
@@ -59,7 +60,18 @@ def r2(run, db):
                 se = (site.bb, info["edges"]["Some"])
                 passes = all_paths_from_edge_pass(f, se, [u.site])
         run.check(passes, "rollback-complete:%s" % f.id, "on the Err edge a named actor always passes through unregister before returning", "a named actor can leave the Err edge without unregistering", u.where())
-        okn = any(r["k"] == "arg" and r["local"] == 1 for r in f.origins(u.args[0], through=lambda cc: 0 if cc.matches(r"Clone|AsRef|Deref|String|as_ref$|as_deref$|cloned$|to_owned$|to_string$|Borrow") else None))
+        thr_n = lambda cc: 0 if cc.matches(r"Clone|AsRef|Deref|String|as_ref$|as_deref$|cloned$|to_owned$|to_string$|Borrow") else None
+        okn = any(r["k"] == "arg" and r["local"] == 1 for r in f.origins(u.args[0], through=thr_n))
+        if not okn:
+            # the name read back from the new cell itself (`self.inner.name`): the rollback gives up exactly the name that the
+            # registration just before took, and that name is the cell's own `name` property
+            def key(r):
+                return (r["k"], r.get("local"), r["call"].bb if r["k"] == "call" else None, tuple(e for e in r.get("proj", []) if e.startswith("f:")), tuple(e for e in r.get("trail", []) if e.startswith("f:")))
+            reg = [x for x in f.calls() if x.matches(r"registry::register$")]
+            ru = set(key(r) for r in f.origins(u.args[0], through=thr_n))
+            rr = set(key(r) for x in reg for r in f.origins(x.args[0], through=thr_n))
+            names_u = [proj_field_name(e) for r in f.origins(u.args[0], through=thr_n) for e in r.get("proj", []) + r.get("trail", []) if e.startswith("f:")]
+            okn = bool(ru) and ru == rr and "name" in names_u
         run.check(okn, "rollback-own-name:%s" % f.id, "the rollback unregisters the constructor's own name parameter", "rollback uses a different name", u.where())
         errs = [site for site, s in f.aggregates(adt="std::result::Result", variant="Err") if f.edge_dominates(ee, site)]
         run.check(bool(errs), "rollback-returns-err:%s" % f.id, "the Err edge returns Err", None, f.where())
